@@ -3,6 +3,7 @@ package optionreflect
 import (
 	"math"
 	"math/bits"
+	"sort"
 	"strconv"
 	"unicode/utf8"
 
@@ -77,9 +78,23 @@ func walkOptionMap(fieldDesc protoreflect.FieldDescriptor, mp protoreflect.Map) 
 		panic("map value is message, not supported")
 	}
 
+	// Range visits the entries in an unspecified order: collect them by the text
+	// of their key and emit them sorted, so the output does not change from run
+	// to run.
+	keys := make([]string, 0, mp.Len())
+	entries := make(map[string]mapEntry, mp.Len())
 	mp.Range(func(key protoreflect.MapKey, val protoreflect.Value) bool {
-		mapVal := walkOptionScalar(fieldDesc.MapValue(), val)
-		keyVal := walkOptionScalar(fieldDesc.MapKey(), key.Value())
+		keyText := key.String()
+		keys = append(keys, keyText)
+		entries[keyText] = mapEntry{key: key, val: val}
+		return true
+	})
+	sort.Strings(keys)
+
+	for _, keyText := range keys {
+		entry := entries[keyText]
+		mapVal := walkOptionScalar(fieldDesc.MapValue(), entry.val)
+		keyVal := walkOptionScalar(fieldDesc.MapKey(), entry.key.Value())
 		mapVal.Key = "value"
 		keyVal.Key = "key"
 
@@ -91,10 +106,14 @@ func walkOptionMap(fieldDesc protoreflect.FieldDescriptor, mp protoreflect.Map) 
 			},
 		}
 		out.Children = append(out.Children, kvChild)
-		return true
-	})
+	}
 
 	return out
+}
+
+type mapEntry struct {
+	key protoreflect.MapKey
+	val protoreflect.Value
 }
 
 func walkOptionMessage(fieldDesc protoreflect.FieldDescriptor, msgVal protoreflect.Message) OptionField {
